@@ -154,19 +154,28 @@ def loadOk (st : Store Name) (t : Template Name) (o : LoadObs Name) : Bool :=
 
 /-! ### the ObjectSet controller, sliced vs. inline -/
 
-/-- What is compared between the sliced ObjectSet and its inline twin. -/
-def visible (o : CtlOut Name) : CRes × List Call × Option Bool × Bool :=
-  (o.res, o.calls, o.archived, o.finalizerRemoved)
+/-- What is compared between the sliced ObjectSet and its inline twin: the result, every call that hands a phase
+to the in-process worker or (delegated phases) to an ObjectSetPhase object — with the objects handed over —, and
+the status the ObjectSet reports (Archived, Available, InTransition conditions, finalizer). -/
+def visible (o : CtlOut Name) : CRes × List Call × Option Bool × Bool × Option Bool × Bool :=
+  (o.res, o.calls, o.archived, o.finalizerRemoved, o.available, o.inTransition)
 
 /-- Transparency: the sliced run shows exactly what the run of the same ObjectSet with the objects inline
 shows; if a referenced slice is missing the controller must fail without acting. -/
 def ctlOk (st : Store Name) (t : Template Name) (sliced inline : CtlOut Name) : Bool :=
   match decode st t with
-  | none => sliced.res == .err && sliced.calls.isEmpty && !sliced.finalizerRemoved && sliced.archived.isNone
+  | none =>
+    sliced.res == .err && sliced.calls.isEmpty && !sliced.finalizerRemoved && sliced.archived.isNone &&
+    sliced.available.isNone && !sliced.inTransition
   | some _ => visible sliced == visible inline
 
-/-- The inline twin of a sliced ObjectSet. -/
+/-- The inline twin of a sliced ObjectSet (all phases without class). -/
 def inlineTwin (d : List (List Obj)) : Template Name := d.map fun objs => { objects := objs, slices := [] }
+
+/-- The inline twin of the sliced ObjectSet `t` that decodes to `d`: every phase keeps its class, holds all its
+objects inline and references no slice. -/
+def inlineTwinOf (t : Template Name) (d : List (List Obj)) : Template Name :=
+  (t.zip d).map fun pd => { objects := pd.2, slices := [], cls := pd.1.cls }
 
 end
 end Pko.Model.ChunkSpec
